@@ -5,7 +5,7 @@ V=$(cd "$(dirname "$0")" && pwd)
 export VERIF_DIR=$V
 export VERIF_BUILD=${VERIF_BUILD:-$V/build}
 export VERIF_GOFASTA=$VERIF_BUILD/gofasta
-if [ "${1:-}" = C12 ]; then export VERIF_RACE=1; fi
+export VERIF_RACE=1   # the -race harness build is used by the complementary race pass of every property with a schedule layer
 "$V/build.sh" || { echo "ENGINE-ERROR build failed (see above)"; exit 2; }
 cd "$V"
 exec "$VERIF_BUILD/vcheck" "$@"
